@@ -427,3 +427,32 @@ VARIANTS += [
     V("C08", "benign: file list sorted in a separate statement", GA, 'for file_path in sorted(root.glob(pattern="./**/*.py")):', 'python_files = sorted(root.glob(pattern="./**/*.py"))\n    for file_path in python_files:', None),
     V("C15", "benign: file list sorted in a separate statement", GA, 'for file_path in sorted(root.glob(pattern="./**/*.py")):', 'python_files = sorted(root.glob(pattern="./**/*.py"))\n    for file_path in python_files:', None),
 ]
+VARIANTS += [
+    # repairs of the defects a runtime oracle found on the unmodified tree, each reverted
+    V("C01", "parameter without a mypy type raises", VIS, "            if mypy_type is None:\n                # Mypy does not analyse every function (e.g. unreachable code or functions with @no_type_check), for\n                # those we have no type information\n                pass\n",
+      "            if mypy_type is None:\n                raise ValueError(\"Argument has no type.\")\n", "C01.RAISE-INVENTORY"),
+    V("C01", "dict branch reads two arguments unconditionally", VIS, 'elif type_name in {"dict", "Mapping"} and len(mypy_type.args) == 2:', 'elif type_name in {"dict", "Mapping"}:', "C01.PARTIAL-OPS"),
+    V("C01", "benign: dict arity tested with >=", VIS, 'elif type_name in {"dict", "Mapping"} and len(mypy_type.args) == 2:', 'elif type_name in {"dict", "Mapping"} and len(mypy_type.args) >= 2:', None),
+    V("C01", "unbound name becomes a named type without qname", MH, "        elif not expr.fullname:\n            # Mypy could not find out what the name refers to\n            return sds_types.UnknownType()\n", "", "C01.IMPORT-SOURCE"),
+    V("C01", "benign: unbound-name test written positively", MH, "        elif not expr.fullname:\n            # Mypy could not find out what the name refers to\n            return sds_types.UnknownType()\n        else:\n            return sds_types.NamedType(name=expr.name, qname=expr.fullname)",
+      "        elif expr.fullname:\n            return sds_types.NamedType(name=expr.name, qname=expr.fullname)\n        else:\n            return sds_types.UnknownType()", None),
+    V("C01", "named type from a member expression without guard", MH, "    elif isinstance(expr, mp_nodes.IntExpr):\n        return sds_types.NamedType(name=\"int\", qname=\"builtins.int\")",
+      "    elif isinstance(expr, mp_nodes.MemberExpr):\n        return sds_types.NamedType(name=expr.name, qname=expr.fullname)\n    elif isinstance(expr, mp_nodes.IntExpr):\n        return sds_types.NamedType(name=\"int\", qname=\"builtins.int\")", "C01.IMPORT-SOURCE"),
+    V("C01", "docstring lookup raises for unknown declarations", DP, "                logging.warning(msg)\n                return None\n\n        return griffe_node", "                raise ValueError(msg)\n\n        return griffe_node", "C01.RAISE-INVENTORY"),
+    V("C01", "class lookup treats a missing node as an error", DP, "        if griffe_node is None:\n            return ClassDocstring()\n", "        if griffe_node is None:\n            raise TypeError(f\"Expected a griffe node for {class_node.fullname}, got None.\")\n", "C01.RAISE-INVENTORY"),
+    V("C01", "stub file written with the strict error handler", GS, 'with file_path.open("w", encoding="utf-8", errors="backslashreplace") as f:\n            f.write(module_text)', 'with file_path.open("w", encoding="utf-8") as f:\n            f.write(module_text)', "C01.FS-TOLERANT"),
+    V("C01", "benign: unencodable characters replaced", GS, 'with file_path.open("w", encoding="utf-8", errors="backslashreplace") as f:\n            f.write(module_text)', 'with file_path.open("w", encoding="utf-8", errors="replace") as f:\n            f.write(module_text)', None),
+    V("C01", "API JSON written without ASCII escaping", API, "json.dump(self.to_dict(), f, indent=2)", "json.dump(self.to_dict(), f, indent=2, ensure_ascii=False)", "C01.FS-TOLERANT"),
+    V("C08", "docstring package looked up on the module search path", DP, "load(package_path.name, search_paths=[package_path.parent], docstring_parser=parser)", "load(package_path, docstring_parser=parser)", "C08.AMBIENT"),
+    V("C08", "benign: search path given as a string", DP, "load(package_path.name, search_paths=[package_path.parent], docstring_parser=parser)", "load(package_path.name, search_paths=[str(package_path.parent)], docstring_parser=parser)", None),
+    V("C01", "benign: search path given as a string", DP, "load(package_path.name, search_paths=[package_path.parent], docstring_parser=parser)", "load(package_path.name, search_paths=[str(package_path.parent)], docstring_parser=parser)", None),
+    V("C01", "package walk-up without the root test", DP, 'while (package_path.parent / "__init__.py").is_file() and package_path.parent != package_path:\n            package_path = package_path.parent', 'while (package_path.parent / "__init__.py").is_file():\n            package_path = package_path.parent', "C01.TERM"),
+]
+VARIANTS += [
+    V("C17", "abstract classes lose their superclass block", GEN, '        if superclasses:\n            for superclass in superclasses:\n                if superclass == "abc.ABC":', '        if superclasses and not class_.is_abstract:\n            for superclass in superclasses:\n                if superclass == "abc.ABC":', "C17.BRANCH"),
+    V("C20", "abstract classes lose their superclass block", GEN, '        if superclasses:\n            for superclass in superclasses:\n                if superclass == "abc.ABC":', '        if superclasses and not class_.is_abstract:\n            for superclass in superclasses:\n                if superclass == "abc.ABC":', "C20.GUARDS"),
+    V("C17", "benign: ABC skipped by its name parts", GEN, '                if superclass == "abc.ABC":', '                if superclass.split(".") == ["abc", "ABC"]:', None),
+    V("C20", "non-literal defaults marked as unknown values (the repair C20.DEFAULT-SOURCE asks for)", VIS, "                # in the package we analyze with Safe-DS.\n                return default_value, default_is_none", "                # in the package we analyze with Safe-DS.\n                return UnknownValue(), default_is_none", None),
+    V("C06", "non-literal defaults marked as unknown values (the repair C20.DEFAULT-SOURCE asks for)", VIS, "                # in the package we analyze with Safe-DS.\n                return default_value, default_is_none", "                # in the package we analyze with Safe-DS.\n                return UnknownValue(), default_is_none", None),
+    V("C06", "literal int default reported as unknown", MH, "    elif isinstance(expr, mp_nodes.IntExpr | mp_nodes.FloatExpr | mp_nodes.StrExpr):\n        return expr.value", "    elif isinstance(expr, mp_nodes.FloatExpr | mp_nodes.StrExpr):\n        return expr.value", "C06.LITERAL-VALUE"),
+]
